@@ -221,6 +221,33 @@ fn exec_c<C: Suite>(scen: &Scenario) -> Exec {
             }
         }
         rep.probe("raised_threshold_refused");
+        // Taproot: the same through the tweaking entry points (they derive their own tweaked packages)
+        if C::IS_TR {
+            for root in [None, Some([9u8; 32])] {
+                let r = root.as_ref().map(|b| b.as_slice());
+                let mut tshares = BTreeMap::new();
+                for (j, kp) in members.iter().enumerate() {
+                    rep.evaluations += 1;
+                    if C::sign_with_tweak(&pkg, &nn[j], &with_threshold::<C>(kp, t + 1), r).is_ok() {
+                        return Exec::Violation(viol("C03.signer_signed_below_threshold", format!("sign_with_tweak produced a share for a package with {t} participants although the key package records threshold {}", t + 1)), rep);
+                    }
+                    match C::sign_with_tweak(&pkg, &nn[j], kp, r) {
+                        Ok(z) => {
+                            tshares.insert(*kp.identifier(), z);
+                        }
+                        Err(e) => return Exec::Violation(viol("C03.control_failed", format!("honest sign_with_tweak failed: {e:?}")), rep),
+                    }
+                }
+                rep.evaluations += 2;
+                if let Err(e) = C::aggregate_with_tweak(&pkg, &tshares, &pk, r) {
+                    return Exec::Violation(viol("C03.control_failed", format!("honest aggregate_with_tweak failed: {e:?}")), rep);
+                }
+                if C::aggregate_with_tweak(&pkg, &tshares, &raised, r).is_ok() {
+                    return Exec::Violation(viol("C03.aggregate_accepted_below_threshold", format!("aggregate_with_tweak aggregated {t} shares although the public key package records threshold {}", t + 1)), rep);
+                }
+                rep.probe("raised_threshold_refused_with_tweak");
+            }
+        }
     }
 
     // ---- B. liars ----------------------------------------------------------------------------
